@@ -1227,7 +1227,7 @@ coap_pdu_parse_opt_base(coap_pdu_t *pdu, uint16_t len) {
       res = 0;
     break;
   case COAP_OPTION_URI_QUERY:
-    if (len < 1 || len > 255)
+    if (len > 255)
       res = 0;
     break;
   case COAP_OPTION_HOP_LIMIT:
@@ -1240,6 +1240,11 @@ coap_pdu_parse_opt_base(coap_pdu_t *pdu, uint16_t len) {
     break;
   case COAP_OPTION_LOCATION_QUERY:
     if (len > 255)
+      res = 0;
+    break;
+  case COAP_OPTION_Q_BLOCK1:
+  case COAP_OPTION_Q_BLOCK2:
+    if (len > 3)
       res = 0;
     break;
   case COAP_OPTION_BLOCK2:
@@ -1267,7 +1272,7 @@ coap_pdu_parse_opt_base(coap_pdu_t *pdu, uint16_t len) {
       res = 0;
     break;
   case COAP_OPTION_ECHO:
-    if (len > 40)
+    if (len < 1 || len > 40)
       res = 0;
     break;
   case COAP_OPTION_NORESPONSE:
